@@ -75,6 +75,8 @@ def streams(tier, rng, P, only=None, cases=None):
     # lower-case commands
     for c in ([0, 1, 7, 10, 11, 64, 91, 127] if not big else range(128)):
         for v in vals7()[::4]: add("y", "y%d,%d" % (c, v), [c, v])
+        # (the controller number and the value in the other spellings of a number)
+        add("y", "y$%X,%d" % (c, 100), [c, 100]); add("y", "y0x%x,$%X" % (c, 64), [c, 64]); add("y", "y%d,$7F" % c, [c, 127])
     for v in vals7(): add("p", "p%d" % v, [v]); 
     for v in (range(1, 129) if big else list(range(1, 129, 5)) + [128]): add("@", "@%d" % v, [v])
     for txt, bank in (("5,,2", [5, 0, 2]), ("100,,127", [100, 0, 127])): add("@", "@" + txt, bank)
